@@ -228,6 +228,32 @@ HARNESSES += [
 ]
 
 
+def win(name, define, what, bounded, q, t, unwind_q, unwind_t, **kw):
+    d = {"name": name, "props": ["C18"], "src": "h_win_quote.c", "contracts": [], "win": True, "tus": [],
+         "defs": dict({define: None}, **q), "defs_thorough": t, "unwind": unwind_q, "unwind_thorough": unwind_t,
+         "bounded": bounded, "what": what, "native": False, "timeout": 900, "timeout_thorough": 3600}
+    d.update(kw)
+    return d
+
+
+HARNESSES += [
+    win("win_argument_quoting", "WIN_argument",
+        "real argument_should_escape / argument_escaped_size / argument_escape of process.windows.c on one fully symbolic "
+        "argument: size prediction exact, all writes in bounds (CBMC bounds checks on a buffer of exactly the predicted "
+        "size), and the output parsed by an independent transcription of the MS C runtime rules is exactly the input",
+        "argument length <= 4 (quick) / 6 (thorough) bytes, every byte symbolic",
+        {"VERIF_ARGLEN": "4"}, {"VERIF_ARGLEN": "6"}, 16, 24),
+    win("win_argv_join", "WIN_argv_join",
+        "real argv_join: the command line splits back into exactly the original arguments, no extra argument, buffer exact",
+        "at most 2 arguments of at most 2 (quick) / 3 (thorough) bytes",
+        {"VERIF_ARGLEN": "2", "VERIF_NARGS": "2"}, {"VERIF_ARGLEN": "3", "VERIF_NARGS": "2"}, 14, 20),
+    win("win_env_block", "WIN_env",
+        "real env_join_size / env_join: entries in order, each NUL-terminated, closed by a final NUL, size exact",
+        "at most 2 entries of at most 3 (quick) / 4 (thorough) bytes",
+        {"VERIF_ARGLEN": "3", "VERIF_NARGS": "2"}, {"VERIF_ARGLEN": "4", "VERIF_NARGS": "3"}, 12, 16),
+]
+
+
 def api(name, props, what, **kw):
     d = {"name": "reproc_" + name, "props": props, "src": "h_api.c", "contracts": ["public.h"],
          "includes": ["reproc.c"], "enforce": "reproc_" + name, "defs": {"API_" + name: None, "VERIF_MAX_BUF": "(1ul<<40)"},
